@@ -6,7 +6,7 @@ PROP = {
         "level_note": "Trusts Sender::verif_snapshot (reads pending_len under the channel's own lock), the metric reader, the model in harness/mon/src/bin/c09.rs and the hand-written executor. 'Not before T' is the only wall-clock comparison (returning early would be the bug); 'send returns while the processor never does' is observed as completion of the sends - a send that blocked would surface as a lane watchdog (inconclusive), not as a violation. The emitters' own channels (emit_file / emit_otlp len/clear implementations, heap plateau) are covered by the end-to-end lanes of other monitors.",
         "technique": "runtime monitoring: reference queue model checked after every operation through the state snapshot hook and the queue_length / queue_full_truncated metrics; scripted stalled receiver; multi-threaded bound sampling; Miri on the deterministic sections",
         "assumptions": [
-            "channel type Vec<u64>; the emitter-specific Channel implementations are not exercised here",
+            "the batcher-level sections use the channel type Vec<u64>; the emitters' own Channel implementations are exercised by the files-e2e and otlp-e2e lanes (OTLP: per-signal queue against a stalled collector, metrics read after every emit)",
             "closed channels (receiver dropped) are unconstrained: try_send / blocking_send then return Err without the item by design of the API",
             "try_send / blocking_send returning Err(item) although there is room would be accepted by the model as long as nothing changes (the statement only forbids silent loss)",
         ],
@@ -14,5 +14,6 @@ PROP = {
             native("c09"),
             miri("c09", seeds_q=0, seeds_t=24, args={"miri-cases": 3, "miri-conc": 2, "miri-conc-ops": 6}),
             native("c09x", pkg="monx", name="files-e2e"),
+            native("c09o", pkg="monx", name="otlp-e2e"),
         ],
     }
